@@ -72,6 +72,7 @@ ada_never_inline bool try_parse_simple_absolute(std::string_view input,
   constexpr bool is_aggregator =
       std::is_same_v<result_type, ada::url_aggregator>;
   static_assert(is_ada_url || is_aggregator);
+  ADA_VERIF_COUNT(C_FAST_ABS_ENTERED);
 
   const size_t len = input.size();
   if (len < 8) [[unlikely]] {
@@ -317,6 +318,7 @@ after_rest:
       out.hash.emplace(input.data() + hash_start + 1, len - hash_start - 1);
     }
   }
+  ADA_VERIF_COUNT(C_FAST_ABS_ACCEPTED);
   return true;
 }
 
@@ -560,6 +562,7 @@ result_type parse_url_impl(std::string_view user_input,
             }
           }
           url.update_unencoded_base_hash(*fragment);
+          ADA_VERIF_COUNT(C_PARSE_EXIT_EARLY);
           return url;
         }
         // Otherwise, if base's scheme is not "file", set state to relative
@@ -695,6 +698,7 @@ result_type parse_url_impl(std::string_view user_input,
                 url.update_unencoded_base_hash(*fragment);
               }
             }
+            ADA_VERIF_COUNT(C_PARSE_EXIT_EARLY);
             return url;
           }
           input_position = end_of_authority + 1;
@@ -908,6 +912,7 @@ result_type parse_url_impl(std::string_view user_input,
             url.update_unencoded_base_hash(*fragment);
           }
         }
+        ADA_VERIF_COUNT(C_PARSE_EXIT_EARLY);
         return url;
       }
       case state::HOST: {
@@ -1038,6 +1043,7 @@ result_type parse_url_impl(std::string_view user_input,
                 url.update_unencoded_base_hash(*fragment);
               }
             }
+            ADA_VERIF_COUNT(C_PARSE_EXIT_EARLY);
             return url;
           }
           // If c is neither U+002F (/) nor U+005C (\), then decrease pointer
@@ -1309,6 +1315,7 @@ result_type parse_url_impl(std::string_view user_input,
       }
     }
   }
+  ADA_VERIF_COUNT(C_PARSE_EXIT_END);
   return url;
 }
 
